@@ -7,7 +7,7 @@
 namespace gil = boost::gil;
 using c13::SeedView; using c13::Opts; using ioc::Flat; using ioc::Emit;
 
-struct BmpFmt
+struct BmpFmt : c13::DefaultDevices
 {
     using tag = gil::bmp_tag;
     static const char* name() { return "bmp"; }
@@ -29,7 +29,7 @@ struct BmpFmt
     }
 
     // scanline rows: palette -> rgba8, 15/16 bit -> rgb8, 24 -> bgr8, 32 -> bgra8 (reader documentation / repo tests)
-    template <class Reader> static int scan_row(Reader& r, gil::byte_t* p, std::vector<double>& out)
+    template <class Img, class Reader> static int scan_row(Reader& r, gil::byte_t* p, std::vector<double>& out)
     {
         long w = r._info._width;
         int bpp = r._info._bits_per_pixel;
@@ -40,7 +40,7 @@ struct BmpFmt
     }
 
     template <class Img> static void view_exact(Emit& e, ioc::Source const& src, int d, Flat const& full)
-    { c13::view_exact_interleaved<Img, tag>(e, src, d, full); }
+    { c13::view_exact_interleaved<BmpFmt, Img>(e, src, d, full); }
 };
 
 // native GIL type of a BMP (what reader::apply / is_allowed accept without conversion)
